@@ -159,6 +159,23 @@ Proof. vm_compute. reflexivity. Qed.
    history reaches: request ids are never reused, at most one waiter exists per id, and a resolution
    is received - unchanged, in the variable the task named - by exactly the strand that issued the request,
    while no other strand of any command of the app changes. *)
+(* In the function-for-function runtime model (coq/Rt/Rt.v): a value handed to a request's resolve closure goes
+   into that request's OWN channel - it is appended to that channel's buffer when the awaiting future is alive,
+   refused when it is gone - and the buffer of every other channel is left as it was, whatever wake-ups the
+   delivery causes (waking touches no channel at all); closing the sender afterwards (Resolve::Once is consumed)
+   changes no buffer either.  For every heap. *)
+From Crux Require Rt.Perm.
+Theorem C02_rt_value_goes_into_the_requests_own_channel : forall ch v H c,
+  Rt.ch_buf (Rt.gch c (snd (Rt.chan_send ch v H))) =
+  if Nat.eqb c ch then (if Rt.ch_rx (Rt.gch ch H) then Rt.ch_buf (Rt.gch ch H) ++ [v] else Rt.ch_buf (Rt.gch ch H))
+  else Rt.ch_buf (Rt.gch c H).
+Proof. exact Perm.chan_send_routes. Qed.
+Theorem C02_rt_waking_touches_no_channel : forall fuel w H, Rt.chans (Rt.wake fuel w H) = Rt.chans H.
+Proof. exact Perm.wake_chans. Qed.
+Theorem C02_rt_consuming_the_sender_changes_no_buffer : forall ch H c,
+  Rt.ch_buf (Rt.gch c (Rt.chan_drop_tx ch H)) = Rt.ch_buf (Rt.gch c H).
+Proof. exact Perm.chan_drop_tx_keeps_buffers. Qed.
+
 From Crux Require Rt.Lang Rt.Rt Rt.Host Rt.Ref Rt.RefCore Rt.RefCoreProps.
 
 Theorem C02_ref_one_waiter_per_request : forall hs st,
